@@ -153,17 +153,26 @@ func (r *Runner) guardObs() (e ev) {
 // the schema file is gone - Control / sweep - Repair - Control / sweep.
 // The observations are returned as fields of one event; record ids refer to
 // the current r.recs table.
-func (r *Runner) recovery(root string) ev {
+func (r *Runner) recovery(root string) ev { return r.recoveryVia(root, "schema") }
+
+// recoveryVia: first is the call that makes the first load of the collection: "schema" (any read-only access)
+// or "create" (the usual start-up sequence Open + Create).
+func (r *Runner) recoveryVia(root string, first string) ev {
 	saveDB, saveRoot := r.db, r.root
 	defer func() { r.db, r.root = saveDB, saveRoot }()
 	r.root = root
 	r.db = sod.Open(root)
 	out := ev{}
 	r.lastMsg = ""
-	out["load"] = r.guardClass(func() error { _, err := r.db.Schema(r.proto()); return err })
-	if out["load"] == "notfound" {
-		out["create"] = r.guardClass(func() error { return r.db.Create(r.proto(), r.schema()) })
+	if first == "create" {
+		out["load"] = r.guardClass(func() error { return r.db.Create(r.proto(), r.schema()) })
+	} else {
+		out["load"] = r.guardClass(func() error { _, err := r.db.Schema(r.proto()); return err })
+		if out["load"] == "notfound" {
+			out["create"] = r.guardClass(func() error { return r.db.Create(r.proto(), r.schema()) })
+		}
 	}
+	out["first"] = first
 	out["obs1"] = r.guardObs()
 	out["repair"] = r.guardClass(func() error { return r.db.Repair(r.proto()) })
 	out["obs2"] = r.guardObs()
@@ -210,6 +219,7 @@ type Damage struct {
 	Add      []Vals `json:"add,omitempty"`      // add a valid object file with a fresh uuid
 	Unindex  []int  `json:"unindex,omitempty"`  // remove these slots' entries from the serialised index
 	RmSchema bool   `json:"rmschema,omitempty"` // remove schema.json
+	First    string `json:"first,omitempty"`    // the call that makes the first load afterwards: "schema" (default) | "create"
 }
 
 func (r *Runner) collDir() string { return filepath.Join(r.root, expectedDir(r.cfg.Plain, r.cfg.Lc)) }
@@ -341,7 +351,11 @@ func (r *Runner) damage(op *Op) {
 	sort.Ints(rm)
 	sort.Ints(unidx)
 	e["rm"], e["unindex"], e["add"], e["rmschema"] = rm, unidx, added, d.RmSchema
-	rec := r.recovery(r.root)
+	first := d.First
+	if first == "" {
+		first = "schema"
+	}
+	rec := r.recoveryVia(r.root, first)
 	for k, v := range rec {
 		e[k] = v
 	}
